@@ -58,6 +58,31 @@ DECODE = {
 }
 
 
+# wrappers that carry a stored value into a public struct field without losing information
+LOSSLESS_WRAPPERS = [
+    r"^rpm::timestamp::Timestamp::Timestamp\{(?P<x>.*)\}$",
+    r"^(?:usize|u64|i64|u128)\((?P<x>.*)\)$",
+    r"^constants::_::<impl constants::\w+>::from_bits_retain\((?P<x>.*)\)$",
+    r"^std::convert::(?:TryFrom::try_from|TryInto::try_into)\((?P<x>.*)\)<Ok>\.0$",
+    r"^std::option::Option::<T>::map\((?P<x>.*), constants::_::<impl constants::\w+>::from_bits_retain\)$",
+]
+
+
+def peel_lossless(t, leaf_rx):
+    """strip information-preserving wrappers from a rendered term; -> (reached leaf?, what is left)"""
+    for _ in range(6):
+        if re.fullmatch(leaf_rx, t):
+            return True, t
+        for rx in LOSSLESS_WRAPPERS:
+            m = re.match(rx, t)
+            if m:
+                t = m.group("x")
+                break
+        else:
+            return False, t
+    return False, t
+
+
 def getters_in(b, tb=None):
     """[(getter suffix, receiver, tag)] for each Header::get_entry_data_as_* / entry_is_present call."""
     tb = tb or TermBuilder(b)
@@ -242,6 +267,39 @@ def run(f, fixture, rep, cfg, tier):
             for st in cb.stmts(bb):
                 if st["k"] == "assign" and st["rv"]["r"] == "agg" and st["rv"].get("adt", "").endswith("errors::Error"):
                     errs.add(st["rv"]["variant"])
+    # the index is in whatever order the package stored it (parse keeps the order): a lookup may not assume an order
+    ORDERED = r"(binary_search\w*|partition_point|sort\w*|dedup\w*)$"
+    n_lookup = 0
+    for hb in [x for x in f.body_list if "headers::header::Header::<" in x.path]:
+        htb = None
+        for c in hb.calls():
+            if re.search(ORDERED, c.decl) and c.args:
+                htb = htb or TermBuilder(hb)
+                recv = render(htb.term(c.args[0]))
+                n_lookup += 1
+                rep.check("index_entries" not in recv, "R3", "lookup|order-assumed|%s|%s" % (fmt_key(hb.path), re.search(ORDERED, c.decl).group(1)),
+                          "no order-assuming operation on the index", "%s is applied to the header index (%s): the index of a parsed header is in stored order, not sorted" % (c.decl, recv[:120]), c.loc())
+    rep.count("order_assuming_calls_on_header_paths", n_lookup)
+    finds = [c for c in fe.calls() if re.search(r"Iterator::(find|position|find_map|rposition)$", c.decl.split("::<")[0]) or re.search(r"Iterator>::(find|position|find_map)", c.decl)]
+    tfe = TermBuilder(fe)
+    scans = [c for c in finds if "index_entries" in render(tfe.term(c.args[0]))]
+    okscan = False
+    for c in scans:
+        for lf in fe.origins(c.args[1], passthrough={}):
+            if lf["kind"] == "agg" and lf["stmt"]["rv"].get("ak") == "closure":
+                cb = f.bodies.get(lf["stmt"]["rv"]["closure"])
+                if cb is None:
+                    continue
+                ctb = TermBuilder(cb)
+                for bb in cb.reachable():
+                    for st in cb.stmts(bb):
+                        if st["k"] == "assign" and st["rv"]["r"] == "bin" and st["rv"]["op"] == "Eq":
+                            a, b2 = render(ctb.term(st["rv"]["a"])), render(ctb.term(st["rv"]["b"]))
+                            if any(x.endswith(".tag") for x in (a, b2)) and any("to_u32(" in x for x in (a, b2)):
+                                okscan = True
+    loops_over = bool(fe.loops()) if hasattr(fe, "loops") else False
+    rep.check(okscan or loops_over, "R3", "find_entry|scan", "find_entry_or_err scans the whole index for an entry whose tag equals the requested one",
+              "find_entry_or_err no longer scans the index with a tag-equality predicate (calls: %s)" % sorted({c.decl.rsplit("::", 2)[-1] for c in fe.calls()})[:8], fe.span)
     rep.check(errs == {"TagNotFound"}, "R3", "find_entry|error", "an absent tag is TagNotFound", "find_entry_or_err yields %s" % sorted(errs), fe.span)
 
     # ---- R4 accessor table ------------------------------------------------------------------------------------
@@ -315,6 +373,8 @@ def run(f, fixture, rep, cfg, tier):
         ft = ag[0]
         ok = ("get_entry_data_as_string(self.header, tags.0)" in ft.get("script", "") and "get_entry_data_as_u32(self.header, tags.1)" in ft.get("flags", "")
               and "get_entry_data_as_string_array(self.header, tags.2)" in ft.get("program", ""))
+        okp, left = peel_lossless(ft.get("flags", ""), r"rpm::headers::header::Header::<T>::get_entry_data_as_u32\(self\.header, tags\.1\)")
+        rep.check(okp, "R5", "get_scriptlet|flags-lossless", "scriptlet flags keep every stored bit", "scriptlet flags are computed as %s" % ft.get("flags", "")[:200], gsb.span)
         rep.check(ok, "R5", "get_scriptlet|fields", "Scriptlet{script <- tags.0 string, flags <- tags.1 u32, program <- tags.2 string array}",
                   "Scriptlet is assembled as %s" % {k: v[:90] for k, v in ft.items()}, gsb.span)
     for cname, c in f.consts.items():
@@ -400,6 +460,10 @@ def run(f, fixture, rep, cfg, tier):
                "flags": pos(fe_fields.get("flags")), "linkto": pos(fe_fields.get("linkto"))}
         want = {"path": 0, "user": 1, "group": 2, "mode": 3, "digest": 4, "modified_at": 5, "size": 6, "flags": 7, "linkto": 8}
         rep.check(got == want, "R6", "file_entries|fields", "FileEntry fields take the zip positions %s" % want, "FileEntry fields take positions %s (expected %s)" % (got, want), ge.span)
+        for fld, t in [(k, fe_fields.get(k, "")) for k in ("path", "mode", "modified_at", "size", "flags", "linkto")] + [("user", own.get("user", "")), ("group", own.get("group", ""))]:
+            okp, left = peel_lossless(t, r"_\d+\.1\.\d+")
+            rep.check(okp, "R6", "file_entries|lossless|%s" % fld, "FileEntry.%s carries the stored value unchanged (only information-preserving conversions)" % fld,
+                      "FileEntry.%s is computed as %s: `%s` is not an information-preserving conversion of the stored value" % (fld, t[:160], left[:120]), ge.span)
         for fld in ("caps", "ima_signature"):
             t = fe_fields.get(fld, "")
             rep.check(re.search(r"<impl \[T\]>::get\(.*, _\d+\.0\)", t) is not None, "R6", "file_entries|%s" % fld, "%s is taken at the file's own index" % fld, "%s is %s" % (fld, t[:160]), ge.span)
